@@ -249,6 +249,13 @@ fn merge_order(dir: &Path, before: &BTreeSet<u64>) -> Vec<Vec<u8>> {
     out
 }
 
+/// Marker for the LD_PRELOAD recorder (shim/iorec.c); a no-op without it.
+pub fn mark(text: &str) {
+    if std::env::var_os("IOREC_LOG").is_some() {
+        let _ = std::fs::remove_file(format!("/__iorec__/{}", text));
+    }
+}
+
 pub struct Live {
     pub kv: Option<Bitcask>,
     pub h: Option<Handle>,
@@ -261,6 +268,7 @@ pub fn run_case(c: &CaseCfg, ops: &[String], out: &mut dyn Write, scratch: &Path
         std::fs::create_dir_all(&dir).unwrap();
     }
     bitcask::verif::set_clock(1);
+    mark(&format!("case {}", c.name));
     let mut live = Live { kv: None, h: None };
     let opened = std::panic::catch_unwind(|| make_config(c, &dir).open());
     match opened {
@@ -273,9 +281,12 @@ pub fn run_case(c: &CaseCfg, ops: &[String], out: &mut dyn Write, scratch: &Path
         Err(_) => writeln!(out, "open panic").unwrap(),
     }
     let mut dead = live.h.is_none();
-    for line in ops {
+    for (opi, line) in ops.iter().enumerate() {
         let mut it = line.split_whitespace();
         let cmd = it.next().unwrap_or("");
+        if cmd != "failat" {
+            mark(&format!("op {} {}", opi, cmd));
+        }
         if dead && cmd != "ls" && cmd != "cat" && cmd != "reopen" {
             writeln!(out, "abandoned").unwrap();
             continue;
@@ -356,6 +367,10 @@ pub fn run_case(c: &CaseCfg, ops: &[String], out: &mut dyn Write, scratch: &Path
                     }
                 }
             }
+            "failat" => {
+                mark(&format!("failat {}", it.next().unwrap_or("0")));
+                "ok".into()
+            }
             "clock" => {
                 bitcask::verif::set_clock(it.next().unwrap().parse().unwrap());
                 "ok".into()
@@ -394,6 +409,7 @@ pub fn run_case(c: &CaseCfg, ops: &[String], out: &mut dyn Write, scratch: &Path
     }
     live.h = None;
     live.kv = None;
+    mark("end");
     writeln!(out, "end").unwrap();
     out.flush().unwrap();
     if c.dir.is_none() {
